@@ -33,6 +33,12 @@ LOG_MACROS = ('trace', 'debug')
 DEFAULT_DERIVES = ('PartialEq', 'Eq', 'Clone', 'Copy')
 
 
+# closure contracts that must NOT be attached in this extraction ("fn:method#k"): set by the caller when the contract does not
+# even type-check against the changed closure (e.g. it returns another type now) - the closure is then left without a
+# contract, and whatever rested on the contract becomes unprovable instead of the whole unit being refused
+DROP_CLOSURE_SPECS = set()
+
+
 class Unsupported(Exception):
     """Something the extractor does not know how to handle: exit 2, never an alarm."""
 
@@ -578,8 +584,10 @@ def _closures(body, spec, ctr, dropped, used):
                             if key in spec.sections:
                                 p0 = [x for x in params if x.sig()]
                                 pname = p0[0].text if (len(p0) == 1 and p0[0].kind == 'ident') else '__p%d' % k
-                                csp = spec.sections[key].replace('$cp', pname)
+                                cid = '%s:%s#%d' % (spec.name, meth, nth)
                                 used.add(key)
+                                if cid not in DROP_CLOSURE_SPECS:
+                                    csp = '/*cs=%s*/ ' % cid + spec.sections[key].replace('$cp', pname)
                     ctexts = [x.text for x in cbody if x.sig()]
                     for key in (spec.sections if csp is None else ()):
                         if isinstance(key, tuple) and key[0] == 'closure~':
